@@ -286,7 +286,9 @@ fn apply(op: Op) {
             {
                 let id = var_id(a);
                 c.vars[a as usize].borrow_mut().as_mut().unwrap().finalize_again();
-                c.model.borrow_mut().objs[id as usize].fin_flag = false;
+                let mut m = c.model.borrow_mut();
+                m.objs[id as usize].fin_flag = false;
+                m.objs[id as usize].resurrected = false;
             }
         },
         #[cfg(feature = "weak")]
@@ -484,6 +486,9 @@ fn apply(op: Op) {
                 v!("C16", "P-sat", "{} at the maximum count (strong {}, weak {}) did not panic", what, pre.0, pre.1);
             } else {
                 let post = obs(w);
+                if post.0 < pre.0 {
+                    v!("C04", "P-count", "strong_count() of object #{} went from {} to {} across a panicking {} although no Cc was dropped (the count is now too low)", t, pre.0, post.0, what);
+                }
                 if post != pre {
                     v!("C16", "P-sat", "{} at saturation of object #{} changed (strong, weak, header) {:?} -> {:?}", what, t, pre, post);
                 }
@@ -512,6 +517,9 @@ fn observe(a: u8) -> (u32, u32, bool, hk::ObjSnapshot) {
 
 fn check_unchanged(a: u8, id: u8, pre: (u32, u32, bool, hk::ObjSnapshot), what: &str) {
     let post = observe(a);
+    if post.0 < pre.0 {
+        v!("C04", "P-count", "strong_count() of object #{} went from {} to {} across a panicking {} although no Cc was dropped (the count is now too low)", id, pre.0, post.0, what);
+    }
     if post.0 != pre.0 || post.1 != pre.1 || post.2 != pre.2 {
         v!("C16", "P-sat", "{} at saturation of object #{} changed (strong, weak, finalized) {:?} -> {:?}", what, id, (pre.0, pre.1, pre.2), (post.0, post.1, post.2));
     } else if post.3 != pre.3 {
@@ -1094,6 +1102,9 @@ fn walk(cc: &Cc<Node>, id: u8, w: &mut Walk, faults: u32) -> bool {
     #[cfg(feature = "fin")]
     {
         if cc.already_finalized() != fin_flag {
+            if fin_flag && c.model.borrow().objs[id as usize].resurrected {
+                v!("C06", "P-res", "resurrected object #{} reports already_finalized() = false: it would be finalized a second time", id);
+            }
             v!("C05", "P-fin", "already_finalized() of object #{} is {} but the model says {}", id, cc.already_finalized(), fin_flag);
             return false;
         }
@@ -1668,7 +1679,8 @@ pub fn canonical_key(out: &mut Vec<u8>) {
             | (ob.limbo as u16) << 7
             | (ob.cyclic_failed as u16) << 8
             | ((ob.map_addr != 0 && !ob.map_freed) as u16) << 9
-            | (ob.leaky as u16) << 10;
+            | (ob.leaky as u16) << 10
+            | (ob.resurrected as u16) << 11;
         out.extend_from_slice(&flags.to_le_bytes());
         out.push(ob.fin_script);
         out.push(ob.drop_script);
